@@ -121,7 +121,9 @@ def create(req, sock, client, server, cfg):
     for hdr_name, hdr_value in req.headers:
         if hdr_name == "EXPECT":
             # handle expect
-            if hdr_value.lower() == "100-continue":
+            # an HTTP/1.0 client does not know interim responses and must
+            # not get one (RFC 9110 section 10.1.1)
+            if hdr_value.lower() == "100-continue" and req.version >= (1, 1):
                 sock.send(b"HTTP/1.1 100 Continue\r\n\r\n")
         elif hdr_name == 'HOST':
             host = hdr_value
